@@ -485,7 +485,53 @@ def r6(ctx):
         raise AnalysisBroken('C07.R6: only %d conversions of strtoul results found' % n)
 
 
+def r8(ctx):
+    ctx.rule('C07.R8', 'a value list can only be written through its keys (C07.R2), so every key must lie in the range of the '
+             'type: each construction of a ValueListDataField from a caller-supplied value map is preceded by a loop over '
+             'that whole map that calls checkValueRange() on every key and leaves on a failure (checking only some entries '
+             'is not enough: for signed types the valid raw values are two separate intervals)', minimum=3)
+    fb = ctx.fb
+    n = 0
+    for fn in fb.functions:
+        if fn.relfile != 'src/lib/ebus/data.cpp' or not fn.blocks:
+            continue
+        for x in fn.all('CXXNewExpr'):
+            if 'ValueListDataField' not in fn.nodes[x].get('newt', ''):
+                continue
+            init = fn.nodes[x].get('init')
+            args = fn.nodes.get(init, {}).get('args', []) if init is not None else []
+            if len(args) < 2:
+                continue
+            vk = fn.key(args[-1])
+            base = vk.lstrip('*')
+            is_param = any(p.get('name') == base for p in fn.params)
+            if not is_param:
+                continue        # the own, already checked list (m_values) or a built-in table
+            n += 1
+            ctx.touch(fn)
+            ok = False
+            for l in fn.all('CXXForRangeStmt'):
+                lv = fn.nodes[l]
+                if fn.key(lv.get('range', -1)) not in (vk, base, '*' + base):
+                    continue
+                var = (lv.get('loopvar') or '').split(':')[-1]
+                chk = [c for c in fn.walk(l) if fn.nodes[c]['k'] == 'CXXMemberCallExpr' and
+                       (fn.nodes[c].get('callee') or '').endswith('::checkValueRange') and fn.nodes[c].get('args') and
+                       fn.key(fn.nodes[c]['args'][0]) == var + '.first']
+                rets = [r for r in fn.walk(l) if fn.nodes[r]['k'] == 'ReturnStmt']
+                inside = x in set(fn.walk(l))
+                # the loop lies before the construction and every path to the construction passes its head
+                if chk and rets and not inside and fn.line_of(l) < fn.line_of(x) and \
+                        fn.block_of(x) in fn.reach([fn.block_of(chk[0])]):
+                    ok = True
+            ctx.ob('C07.R8', fn, x, ok, 'new ValueListDataField(%s) in %s' % (vk, fn.name.split('::')[-2] + '::' + fn.name.split('::')[-1]),
+                   'every key of %s is range-checked in a loop before: %s' % (base, ok))
+    if n < 3:
+        raise AnalysisBroken('C07.R8: only %d value list constructions from caller-supplied maps found' % n)
+
+
 def run(ctx):
+    r8(ctx)
     r6(ctx)
     r1(ctx)
     r2(ctx)
